@@ -3,7 +3,9 @@ package main
 import (
 	"encoding/json"
 	"fmt"
+	"os"
 	"strings"
+	"time"
 
 	ocispec "github.com/opencontainers/image-spec/specs-go/v1"
 	oras "oras.land/oras-go/v2"
@@ -275,6 +277,10 @@ func randBlob(r *common.Rand, sp *spec, mt string, backed bool) ocispec.Descript
 		data = []byte("{}") // stores parse content pushed under a manifest media type
 	}
 	d := descOf(mt, data)
+	if r.Chance(1, 8) && string(data) != "{}" {
+		d = descOf512(mt, data)
+		run.Count("sha512_descriptor")
+	}
 	if backed {
 		sp.Backed[string(d.Digest)] = string(data)
 	}
@@ -344,6 +350,10 @@ func randSpec(r *common.Rand) *spec {
 		} else if r.Chance(1, 6) {
 			mt = ocispec.MediaTypeEmptyJSON
 		}
+		if r.Chance(1, 12) {
+			mt = "" // Pack (rc2) passes it through; PackManifest rejects it
+			run.Count("config_empty_media_type")
+		}
 		d := randBlob(r, sp, mt, backed)
 		sp.Config = &d
 	}
@@ -394,8 +404,169 @@ func randSpec(r *common.Rand) *spec {
 	}
 	if r.Chance(1, 6) {
 		sp.FailAt = r.Intn(4)
+		sp.FaultErr = pick(r, "", "", "notfound", "dupname", "closed", "unsupported")
+	}
+	// file store: Pack's own blobs as named files (title annotation on the config / the manifest);
+	// the name is free, or that of a backed layer (same content: found by digest; other content:
+	// the store refuses the push with ErrDuplicateName)
+	if sp.Target == "file" && r.Chance(1, 3) {
+		name := fmt.Sprintf("own-%d.json", r.Intn(3))
+		for _, l := range sp.Layers {
+			if t := l.Annotations[ocispec.AnnotationTitle]; t != "" && r.Chance(1, 2) {
+				name = t
+			}
+		}
+		if r.Chance(3, 4) {
+			if sp.ConfigAnn == nil {
+				sp.ConfigAnn = map[string]string{}
+			}
+			sp.ConfigAnn[ocispec.AnnotationTitle] = name
+			run.Count("file_titled_config")
+		}
+		if r.Chance(1, 3) {
+			if sp.Ann == nil {
+				sp.Ann = map[string]string{}
+			}
+			sp.Ann[ocispec.AnnotationTitle] = pick(r, name, "manifest.json")
+			run.Count("file_titled_manifest")
+		}
+	}
+	// strings that are not valid UTF-8 (Go strings are byte strings)
+	if r.Chance(1, 10) {
+		bad := func() string { return pick(r, "\xff", "\xfe", "\xc0\x80", "\xed\xa0\x80", "\xe2\x98", "\x80") }
+		switch r.Intn(3) {
+		case 0:
+			base := "a/b"
+			if sp.AT != "" && r.Bool() {
+				base = sp.AT
+			}
+			i := r.Intn(len(base) + 1)
+			sp.AT = base[:i] + bad() + base[i:]
+		case 1:
+			if sp.Ann == nil {
+				sp.Ann = map[string]string{}
+			}
+			sp.Ann["nk"+bad()] = pick(r, "v", "v"+bad())
+			if r.Bool() {
+				sp.Ann["plain"] = "x" + bad() + "y"
+			}
+		default:
+			sp.ConfigAnn = map[string]string{"ck" + bad(): "cv" + bad()}
+		}
+		run.Count("non_utf8_input")
 	}
 	return sp
+}
+
+// enumNonUTF8: the classes of F1 deterministically (every packer, three target kinds).
+func enumNonUTF8() {
+	for _, fn := range []string{"v10", "v11", "rc2", "art"} {
+		for _, tg := range []string{"memory", "oci", "registry", "file"} {
+			for k := 0; k < 4; k++ {
+				sp := &spec{Fn: fn, Target: tg, Exists: true, FailAt: -1, AT: "application/vnd.example.thing", Backed: map[string]string{},
+					Ann: map[string]string{createdKey(fn): "2021-07-01T12:00:00Z"}}
+				switch k {
+				case 0:
+					sp.AT = "a\xff/b"
+				case 1:
+					sp.Ann["k\xff"] = "v\xfe"
+				case 2:
+					sp.ConfigAnn = map[string]string{"c\xfe": "\xff"}
+				case 3:
+					sp.AT = "application/vnd.ex\xc3\xa9" // valid UTF-8, not RFC 6838
+				}
+				packCase(sp)
+				run.Count("non_utf8_input")
+			}
+		}
+	}
+}
+
+// enumFileTitles: Pack's own blobs as named files of a file store, deterministically.
+func enumFileTitles() {
+	empty := descOf("application/octet-stream", []byte("{}"))
+	empty.Annotations = map[string]string{ocispec.AnnotationTitle: "empty.json"}
+	other := descOf("application/octet-stream", []byte("other content"))
+	other.Annotations = map[string]string{ocispec.AnnotationTitle: "other.bin"}
+	backing := map[string]string{string(empty.Digest): "{}", string(other.Digest): "other content"}
+	for _, fn := range []string{"v10", "v11", "rc2", "art"} {
+		for _, ex := range []bool{false, true} {
+			for _, ct := range []string{"", "free.json", "empty.json", "other.bin"} {
+				for _, mt := range []string{"", "manifest.json", "free.json", "other.bin"} {
+					for li := 0; li < 2; li++ {
+						sp := &spec{Fn: fn, Target: "file", Exists: ex, FailAt: -1, AT: "application/vnd.example.thing", Backed: backing,
+							Layers: []ocispec.Descriptor{empty, other}, Ann: map[string]string{createdKey(fn): "2021-07-01T12:00:00Z"}}
+						if li == 1 {
+							sp.Layers = []ocispec.Descriptor{other}
+						}
+						if ct != "" {
+							sp.ConfigAnn = map[string]string{ocispec.AnnotationTitle: ct, "k": "v"}
+						}
+						if mt != "" {
+							sp.Ann[ocispec.AnnotationTitle] = mt
+						}
+						packCase(sp)
+						run.Count("enumerated_file_titles")
+					}
+				}
+			}
+		}
+	}
+}
+
+// ---------------------------------------------------------------- json string coercion
+
+func utf8Case(s string) {
+	id := run.NewID()
+	js, err := json.Marshal(s)
+	var back string
+	if err == nil {
+		err = json.Unmarshal(js, &back)
+	}
+	obs := common.Hex(back)
+	if err != nil {
+		obs = "ERR"
+	}
+	run.Case(id, "U "+common.Hex(s), obs)
+	if back != s {
+		run.Count("utf8_coerced")
+		run.Nontrivial("U:" + s)
+	} else {
+		run.Count("utf8_unchanged")
+	}
+}
+
+func genUTF8() {
+	r := run.Rand.Fork()
+	alpha := []byte{'a', 0x7f, 0x80, 0xbf, 0xc0, 0xc2, 0xe0, 0xa0, 0x9f, 0xed, 0xef, 0xf0, 0x90, 0x8f, 0xf4, 0xf5, 0xff}
+	maxLen := run.Scale(3, 4)
+	var rec func(prefix []byte)
+	rec = func(prefix []byte) {
+		utf8Case(string(prefix))
+		if len(prefix) == maxLen {
+			return
+		}
+		for _, c := range alpha {
+			rec(append(prefix, c))
+		}
+	}
+	rec(nil)
+	n := run.Scale(5000, 200000)
+	for i := 0; i < n; i++ {
+		l := 1 + r.Intn(8)
+		b := make([]byte, l)
+		for j := range b {
+			if r.Chance(2, 3) {
+				b[j] = alpha[r.Intn(len(alpha))]
+			} else {
+				b[j] = byte(r.Intn(256))
+			}
+		}
+		utf8Case(string(b))
+	}
+	for _, s := range []string{"é☃😀", "\xf0\x9f\x98", "\xf4\x90\x80\x80", "\xe0\x9f\xbf", "\xed\x9f\xbf", "\xed\xa0\x80", "\xef\xbf\xbd", "\u2028<>&"} {
+		utf8Case(s)
+	}
 }
 
 func genPacks() {
@@ -403,6 +574,43 @@ func genPacks() {
 	n := run.Scale(2500, 100000)
 	for i := 0; i < n; i++ {
 		packCase(randSpec(r))
+	}
+}
+
+// enumFaults (both tiers): every target kind x every fault position x every fault error class on the
+// calls that issue the most storage operations, with valid inputs.
+func enumFaults() {
+	layer := descOf("application/octet-stream", []byte("layer-content"))
+	cfg := descOf("application/vnd.example.config.v1+json", []byte("cfg"))
+	backing := map[string]string{string(layer.Digest): "layer-content", string(cfg.Digest): "cfg"}
+	for _, tg := range []string{"memory", "oci", "file", "registry"} {
+		for _, ex := range []bool{false, true} {
+			for _, fn := range []string{"v10", "v11", "rc2", "art"} {
+				for ci := 0; ci < 2; ci++ {
+					for li := 0; li < 2; li++ {
+						for fa := -1; fa <= 4; fa++ {
+							for _, fe := range []string{"", "notfound", "dupname", "closed", "unsupported"} {
+								if fa < 0 && fe != "" {
+									continue
+								}
+								sp := &spec{Fn: fn, Target: tg, Exists: ex, FailAt: fa, FaultErr: fe, AT: "application/vnd.example.thing", Backed: backing,
+									Ann: map[string]string{createdKey(fn): "2021-07-01T12:00:00Z"}}
+								if ci == 1 {
+									sp.Config = &cfg
+								}
+								if li == 1 {
+									sp.Layers = []ocispec.Descriptor{layer}
+								} else {
+									sp.LayersNil = true
+								}
+								packCase(sp)
+								run.Count("enumerated_faults")
+							}
+						}
+					}
+				}
+			}
+		}
 	}
 }
 
@@ -421,6 +629,7 @@ func enumPacks() {
 		targets = []string{"memory", "oci", "file", "registry"}
 		fails = []int{-1, 0, 1, 2, 3}
 	}
+	defer enumFaults()
 	layer := descOf("application/octet-stream", []byte("layer-content"))
 	subjectD := descOf(ocispec.MediaTypeImageIndex, []byte(emptyIndex))
 	cfgs := []*ocispec.Descriptor{nil, {}, {}, {}}
@@ -488,6 +697,8 @@ func main() {
 		unsortedAnnotations([]byte(`{"z":1,"a":{"annotations":{"a":"1","b":"2"}},"layers":[{"annotations":{"":"0","k":"1","k1":"2"}}]}`)) != "" {
 		panic("unsortedAnnotations self-test")
 	}
+	// a non-UTC local zone: a created value produced without .UTC() then shows an offset
+	time.Local = time.FixedZone("VERIF", 3*3600+1800)
 	run = common.Start("C19")
 	run.Rule = "distinct pack calls that pushed or succeeded + distinct accepted media-type and timestamp strings"
 	if run.Replay != "" {
@@ -505,15 +716,45 @@ func main() {
 				if sp.Backed == nil {
 					sp.Backed = map[string]string{}
 				}
+				sp.decodeHex()
 				packCase(&sp)
+			case "U":
+				utf8Case(common.UnHex(c["hex"]))
+			case "L":
+				parseCase(common.UnHex(c["hex"]))
 			}
 		}
 		run.Finish()
 		return
 	}
 	enumPacks()
+	enumNonUTF8()
+	enumFileTitles()
 	genPacks()
 	genTimes()
+	genUTF8()
 	genMediaTypes()
+	floors()
 	run.Finish()
+}
+
+// floors: a run in which a stream or a branch produced nothing must not pass silently.
+func floors() {
+	want := map[string]int{"result_ok": 500, "result_storage-error": 100, "result_invalid-datetime": 50, "result_invalid-media-type": 50,
+		"result_unsupported": 20, "result_missing-artifact-type": 20, "target_memory": 50, "target_oci": 50, "target_file": 50,
+		"target_registry": 50, "target_oci+exists": 50, "target_file+exists": 50, "target_registry+exists": 50, "copy_checked": 300,
+		"determinism_checked": 300, "registry_validating": 50, "file_named_blob": 50, "file_titled_config": 30, "file_titled_manifest": 10, "file_duplicate_name": 20, "enumerated_file_titles": 200, "prefilled": 300, "non_utf8_input": 50, "sha512_descriptor": 50, "config_empty_media_type": 10,
+		"enumerated": 1000, "enumerated_faults": 1000, "time_accepted": 1000, "parse_accepted": 1000, "parse_rejected": 1000, "time_rejected": 1000, "mediatype_valid": 1000,
+		"mediatype_invalid": 1000, "utf8_coerced": 500, "utf8_unchanged": 100}
+	var low []string
+	for k, n := range want {
+		if run.Dist[k] < n {
+			low = append(low, fmt.Sprintf("%s=%d<%d", k, run.Dist[k], n))
+		}
+	}
+	if len(low) > 0 {
+		run.Finish()
+		fmt.Println("coverage floor not reached: " + strings.Join(low, " "))
+		os.Exit(3)
+	}
 }
